@@ -31,10 +31,46 @@ EXPLANATION = (
 RULE = "one obligation per (env class, reference checker literal) for coverage and for boundary, per sibling pair, plus the gate"
 
 
-def assert_leaves(sl):
+def _open_route_waiver(d):
+    """`torch.all(A | (open_route & (node == 0)))` -> (A, waiver) when the second disjunct is false for closed routes and for
+    customers (Kleene), else None.  An open route ends at its last customer: what the checker would ask of the never-driven
+    way back to the depot is waived, for open routes at the depot only."""
+    x = nf.strip(d, True)
+    while (nf._fn(x) == "torch.all" and len(x.args) == 2) or (x.op == "meth" and x.args[1] == "all" and len(x.args) == 2):
+        x = nf.strip(x.args[1] if x.op == "call" else x.args[0], True)
+    if x.op != "|" or len(x.args) != 2:
+        return None
+    for a_, w_ in ((x.args[0], x.args[1]), (x.args[1], x.args[0])):
+        if "open_route" not in vg.cells_of(w_):
+            continue
+
+        def assume(open_v, depot_v):
+            def f(n_):
+                n0 = nf.strip(n_, True)
+                while n0.op == "meth" and n0.args[1] in ("squeeze", "reshape", "view", "bool", "flatten"):
+                    n0 = nf.strip(n0.args[0], True)
+                if n0.op == "cell0" and n0.args[1] == "open_route":
+                    return open_v
+                r = nf._cmp_raw(n0)
+                if r is not None and r[1] in ("==", "!=") and (vg.is_const(r[2], 0) or vg.is_const(r[0], 0)) and "open_route" not in vg.cells_of(n0):
+                    return depot_v if r[1] == "==" else (None if depot_v is None else not depot_v)
+                return None
+            return f
+        if nf.kleene(w_, assume(True, True)) is True and nf.kleene(w_, assume(False, None)) is False and nf.kleene(w_, assume(None, False)) is False:
+            return a_, w_
+    return None
+
+
+def assert_leaves(sl, waived=None):
     leaves = []
     for e in sl.events("assert"):
-        leaves.extend(nf.boolwalk(e.data, T.BOOL_CELLS))
+        d = e.data
+        w = _open_route_waiver(d) if isinstance(d, vg.S) else None
+        if w is not None:
+            d = w[0]
+            if waived is not None:
+                waived.append((e, w[0], w[1]))
+        leaves.extend(nf.boolwalk(d, T.BOOL_CELLS))
     return leaves
 
 
@@ -98,9 +134,19 @@ def run(ctx: Ctx):
         probs = sl.problems()
         if probs:
             raise AnalysisError(f"{cname}.check_solution_validity: unhandled constructs {probs[:3]}")
-        leaves = assert_leaves(sl)
+        waived = []
+        leaves = assert_leaves(sl, waived)
         if not leaves:
             raise AnalysisError(f"{cname}.check_solution_validity: no assert found")
+        if cname == "MTVRPEnv":
+            # C06.u: the deadline of the node driven to is not asked of the way back of an OPEN route (F52); nothing else is waived
+            dl = [w_ for w_ in waived if "time_windows" in vg.cells_of(w_[1])]
+            other = [w_ for w_ in waived if "time_windows" not in vg.cells_of(w_[1])]
+            ctx.ob("C06.u", "MTVRPEnv.checker:depot-deadline-waived-for-open-routes", len(dl) == 1 and not other, sl.where,
+                   f"asserts of the form A | (open_route & node == 0): {len(waived)}; the waived condition is the deadline at the node driven to: {len(dl) == 1}" +
+                   ("" if (len(dl) == 1 and not other) else " -- an open route ends at its last customer (the mask and the distance-limit part of this checker drop the way back); "
+                    "without the waiver a complete, mask-confined open-route episode is rejected when the never-driven return would arrive after the depot closes"),
+                   construct="MTVRPEnv.check_solution_validity:open-route-deadline-waiver")
         if cname in ("OPEnv", "PCTSPEnv", "SPCTSPEnv"):
             dup_rule(ctx, cname, sl)
         if cname == "MTVRPEnv":
@@ -196,6 +242,7 @@ def run(ctx: Ctx):
     per_row_asserts(ctx)
     explained_asserts(ctx)
     gate(ctx)
+    state_the_checker_agrees_with(ctx)
 
 
 def per_row_asserts(ctx: Ctx):
@@ -770,6 +817,31 @@ def single_tour(ctx: Ctx):
         ctx.ob("C06.p", f"{cname}.checker:single-tour", ok, fi.loc,
                f"successor walk: {bool(walk_vars)}; visit stamps: {bool(stamp_vars)}; every node asserted to be reached: {reached}" +
                ("" if ok else " -- a permutation with several cycles (sub-tours) is accepted"), construct=f"{cname}.check_solution_validity:single-tour")
+
+
+def state_the_checker_agrees_with(ctx: Ctx):
+    """C06.r / C06.s / C06.t the checker recomputes the constraints from the instance; the episode it is handed was produced
+    through the mask, which reads the STATE.  The two agree only if the state is the instance's and follows the same law:
+      r) a variant's class-level switch reaches the methods that read it (SPCTSP's `_stochastic`: which prize `_reset` stores,
+         `_step` accumulates and the checker sums) -- C01.v;
+      s) the env clock follows the checker's recurrence  t' = max(t + travel, window start) + service  (C01.t, exact form);
+      t) the bounds `_reset` derives for the mask (remaining length budget, capacities, deadlines) are computed from each
+         instance's own row -- batch-axis engine of C04 on every cell written by `_reset` of the checked environments."""
+    from . import C01
+    from ..tables import routing as TR_
+    n0 = len(ctx.obligations)
+    C01.subclass_switches_take_effect(ctx)
+    for o in ctx.obligations[n0:]:
+        o.rule = "C06.r"
+    n1 = len(ctx.obligations)
+    for cname, (path, family) in TR_.ENVS.items():
+        C01.clock_update(ctx, EnvA(ctx.repo, path, cname))
+    if len(ctx.obligations) == n1:
+        raise AnalysisError("no clock-update obligation produced (CVRPTWEnv expected)")
+    for o in ctx.obligations[n1:]:
+        o.rule = "C06.s"
+    from .C04 import batch_rows
+    batch_rows(ctx, "C06.t", envs=tuple(T.CHECK_ENVS), meths=("_reset",))
 
 
 def run_thorough(ctx: Ctx):
